@@ -61,6 +61,7 @@ type Family struct {
 	Calls     func(u *Unit, i int, text string) []work.Call // default: one JSON call per document
 	Level     string
 	Consts    bool // observe the string constants declared by each (singleton) program
+	ForceExtraImports bool // generate every unit with ExtraImports (YAML methods) regardless of its opts
 	JudgeBuild bool // a program that generates but does not compile is an event too (unit.nobuild predicts it)
 	Rule      string
 	ExtraCfg  func(tier string) string // extra CONSTANTS lines for the MC cfg
@@ -119,6 +120,7 @@ type Exec struct {
 	Out     *work.RunOut
 	Consts  []string
 	HasConsts bool
+	Source  string // path of the emitted root.go
 }
 
 func devSet(devs []string) string {
@@ -312,6 +314,9 @@ func Execute(f *Family, sc *work.Scratch, tag string, units []*Unit, pack int) (
 		execs = append(execs, exs...)
 		byProg[p.id] = exs
 		cfg := p.cfg
+		if f.ForceExtraImports {
+			cfg.ExtraImports = true
+		}
 		cfg.DefaultPackageName = p.id
 		cfg.DefaultOutputName = "root.go"
 		jobs = append(jobs, work.GenJob{ID: p.id, Dir: filepath.Join(sc.Dir, "in", p.id),
@@ -356,6 +361,7 @@ func Execute(f *Family, sc *work.Scratch, tag string, units []*Unit, pack int) (
 		}
 		for _, e := range byProg[p.id] {
 			e.Built = true
+			e.Source = filepath.Join(sc.Mod, "gen", p.id, "root.go")
 			if f.Consts {
 				e.Consts, e.HasConsts = stringConsts(filepath.Join(sc.Mod, "gen", p.id, "root.go"))
 			}
@@ -431,6 +437,8 @@ func Execute(f *Family, sc *work.Scratch, tag string, units []*Unit, pack int) (
 }
 
 func tagGlob(tag string) string { return "..." }
+
+func docText(d any) (string, error) { return abs.Doc(d) }
 
 // stringConsts returns the values of all `const X T = "..."` declarations of a generated file.
 func stringConsts(path string) ([]string, bool) {
@@ -540,6 +548,25 @@ func pick(v any, key string) any {
 
 // Validate feeds observation events to TLC (Trace_RT) in parallel chunks and gathers the reports.
 func Validate(f *Family, sc *work.Scratch, tag string, events []*obsEvent, devs []string) ([]Report, Tally, *tlc.Result, error) {
+	mod := f.TraceMod
+	if mod == "" {
+		mod = "Trace_RT"
+	}
+	judge := f.Judge
+	if judge == "" {
+		judge = "verdict"
+	}
+	evs := make([]any, len(events))
+	for i, e := range events {
+		evs[i] = e
+	}
+	consts := "  Devs = " + devSet(devs) + "\n  Judge = \"" + judge + "\"\n"
+	return ValidateWith(sc, tag, mod, consts, nil, evs)
+}
+
+// ValidateWith feeds events to a trace module in parallel chunks. consts are extra CONSTANTS lines of the cfg,
+// files are placed next to the spec (name -> source path).
+func ValidateWith(sc *work.Scratch, tag, mod, consts string, files map[string]string, events []any) ([]Report, Tally, *tlc.Result, error) {
 	chunk := (len(events) + 13) / 14
 	if chunk < 40 {
 		chunk = 40
@@ -555,14 +582,6 @@ func Validate(f *Family, sc *work.Scratch, tag string, events []*obsEvent, devs 
 	var parts []*part
 	for lo := 0; lo < len(events); lo += chunk {
 		parts = append(parts, &part{lo: lo})
-	}
-	mod := f.TraceMod
-	if mod == "" {
-		mod = "Trace_RT"
-	}
-	judge := f.Judge
-	if judge == "" {
-		judge = "verdict"
 	}
 	var wg sync.WaitGroup
 	sem := make(chan struct{}, 14)
@@ -592,9 +611,9 @@ func Validate(f *Family, sc *work.Scratch, tag string, events []*obsEvent, devs 
 				}
 			}
 			fh.Close()
-			cfg := "SPECIFICATION Spec\nCONSTANTS\n  ObsFile = \"obs.ndjson\"\n  Devs = " + devSet(devs) +
-				"\n  Judge = \"" + judge + "\"\nINVARIANT Done\nPOSTCONDITION Accepted\nCHECK_DEADLOCK FALSE\n"
-			p.res, p.err = tlc.Run(tlc.Opts{Module: mod, Cfg: cfg, Dir: dir, Workers: 1, Timeout: 30 * time.Minute, HeapGB: 3})
+			cfg := "SPECIFICATION Spec\nCONSTANTS\n  ObsFile = \"obs.ndjson\"\n" + consts +
+				"INVARIANT Done\nPOSTCONDITION Accepted\nCHECK_DEADLOCK FALSE\n"
+			p.res, p.err = tlc.Run(tlc.Opts{Module: mod, Cfg: cfg, Dir: dir, Workers: 1, Timeout: 30 * time.Minute, HeapGB: 3, Files: files})
 		}(pi, p)
 	}
 	wg.Wait()
